@@ -13,7 +13,11 @@ What is proved here, for ALL inputs:
 * the literal printers against the PAR lexer (`parModes`: the token regexes REGENERATED from the
   `scanner!` block parol generated for `parser/parol.par`): a printed literal is read back as
   exactly one token of its kind with the same body, precisely when the body satisfies the decidable
-  predicate `litOk` (`literal_print_lex_roundtrip_*`, `literal_print_lex_exact`);
+  predicate `litOk` (`literal_print_lex_roundtrip_*`, `literal_print_lex_exact`,
+  `literal_print_lex_roundtrip_iff`); and IN CONTEXT — whatever text follows — the first token read
+  from `d t d rest` is the literal's token ending at its own closing delimiter whenever `litOkCtx`
+  holds (`literal_first_token`), with the boundary case proved as a counterexample
+  (`backslash_body_overruns`: a body ending in a backslash is not self-delimiting — finding F25d);
 * the structural comparer that judges the document-level round trip of the REAL
   `render_par_string` / `obtain_grammar_config_from_string` pair is sound (`configEq_sound`) and
   complete (`configEq_complete`).
